@@ -84,13 +84,27 @@ LEVEL_NOTE = ("Trusted: CPython, vf/term.py (decoder), vf/refstyle.py, html.unes
               "7 print payloads; captures not nested; single thread.")
 
 # ------------------------------------------------------------------ alphabet
-TEXTS = ["a", "&lt;<&>", "[b]x[/b] y", "[link=http://x.y/?q=1&r=2]l[/link]k", "a\nb"]
+# print payloads: markup strings (highlighted by the console) or a list of (text, style) pieces that
+# becomes a fresh Text (printed as given: no markup, no highlighting)
+TEXTS = [
+    "a",
+    "&lt;<&>",
+    "[b]x[/b] y",
+    "[link=http://x.y/?q=1&r=2]l[/link]k",
+    "a\nb",
+    # < > & and an entity under styles that have no CSS rule of their own / only a default colour
+    [("<l&>", "link http://x.y/?q=1&r=2"), ("<b&>", "blink"), ("<n&>", "not bold"), ("<d&>", "default"),
+     ("&amp;", "conceal"), ("<f>", "on default")],
+    # hex / rgb() / 8-bit / named colours
+    [("h<", "#ff8040"), ("r&", "on rgb(1,2,3)"), ("e>", "bold color(201) on #102030"), ("s", "red"),
+     ("i", "italic color(9)")],
+]
 STYLES = [None, "bold #ff8700 on blue"]
 RULE_TITLES = ["", "t<"]
 
 EVENTS = (
     [("print", 0, 0), ("print", 1, 0), ("print", 2, 0), ("print", 3, 0), ("print", 4, 0),
-     ("print", 0, 1), ("print", 2, 1)]
+     ("print", 5, 0), ("print", 6, 0), ("print", 0, 1), ("print", 2, 1)]
     + [("line", 1), ("line", 2)]
     + [("bell",), ("clear",), ("cursor", False), ("cursor", True), ("control",)]
     + [("begin",), ("end",)]
@@ -99,10 +113,22 @@ EVENTS = (
     + [("log",)]
 )
 # the 12-event core explored one level deeper than the full alphabet
-CORE = [("print", 0, 0), ("print", 1, 0), ("print", 3, 0), ("print", 2, 1), ("line", 1), ("bell",),
+CORE = [("print", 0, 0), ("print", 1, 0), ("print", 5, 0), ("print", 2, 1), ("line", 1), ("bell",),
         ("begin",), ("end",), ("xtext", False), ("xhtml", True), ("rule", 1), ("log",)]
 
-CONFIGS = [(cs, term, w) for w in (40, 10) for term in (False, True) for cs in (None, "standard", "truecolor")]
+# (color_system, force_terminal, width, no_color) with no_color in None | "arg" (no_color=True) |
+# "env" (NO_COLOR in _environ).  Width 10 and no_color are crossed with the colour systems, not with
+# each other (neither code path looks at the other).
+CONFIGS = (
+    [(cs, term, 40, None) for term in (False, True) for cs in (None, "standard", "256", "truecolor")]
+    + [(None, False, 10, None), ("standard", True, 10, None), ("256", False, 10, None), ("truecolor", True, 10, None)]
+    + [(cs, True, 40, "arg") for cs in (None, "standard", "256", "truecolor")]
+    + [(cs, False, 40, "env") for cs in (None, "standard", "256", "truecolor")]
+)
+# configurations of the deeper core stratum: quick 6, thorough 12
+CORE_CONFIGS_QUICK = [(None, False, 40, None), ("standard", True, 40, None), ("256", False, 40, None),
+                      ("truecolor", True, 40, None), ("standard", True, 40, "arg"), ("truecolor", False, 40, "env")]
+CORE_CONFIGS_THOROUGH = [c for c in CONFIGS if c[2] == 40 and c[3] in (None, "arg")]
 
 _FIXED_DT = datetime(2021, 2, 3, 4, 5, 6)
 _LINK_ID = re.compile(r"\x1b\]8;id=[^;\x1b\x07]*;")
@@ -115,9 +141,10 @@ def _norm(s):
 
 def _console(cfg, record):
     from rich.console import Console
-    cs, term, w = cfg
+    cs, term, w, nc = cfg
     return Console(file=io.StringIO(), width=w, height=25, force_terminal=term, color_system=cs,
-                   legacy_windows=False, record=record, _environ={},
+                   legacy_windows=False, record=record, _environ={"NO_COLOR": "1"} if nc == "env" else {},
+                   no_color=True if nc == "arg" else None,
                    get_datetime=lambda: _FIXED_DT, get_time=lambda: 0.0)
 
 
@@ -126,7 +153,11 @@ def _emit(con, ev):
     console from the same line, so Console.log reports the same caller"""
     k = ev[0]
     if k == "print":
-        con.print(TEXTS[ev[1]], style=STYLES[ev[2]])
+        payload = TEXTS[ev[1]]
+        if not isinstance(payload, str):
+            from rich.text import Text
+            payload = Text.assemble(*payload)
+        con.print(payload, style=STYLES[ev[2]])
     elif k == "log":
         con.log("a [i]b[/i]")
     elif k == "rule":
@@ -184,11 +215,14 @@ def _html_text(doc):
 
 
 def _style_view(st, level):
-    """st = (attrs, fg, bg, link). level 2: exact; 1: colours only present/absent; 0: nothing"""
+    """st = (attrs, fg, bg, link). level 2: exact; 1: colours only present/absent;
+    3: attributes and link only; 0: nothing"""
     if level == 2:
         return st
     if level == 1:
         return (st[0], st[1] is not None, st[2] is not None, st[3])
+    if level == 3:
+        return (st[0], st[3])
     return None
 
 
@@ -342,18 +376,20 @@ class Run:
             return
         if unknown:
             self.bad("export_text-styles/undecodable-sequence", repr(unknown[:3]))
-        cs = self.cfg[0]
-        level = {None: 0, "standard": 1, "truecolor": 2}[cs]
+        cs, nc = self.cfg[0], self.cfg[3]
+        # what the file can carry: nothing without a colour system, attributes and links only under
+        # no_color, down-converted colours on 16/256-colour consoles (the conversion is C18/C03's)
+        level = 0 if cs is None else 3 if nc else 2 if cs == "truecolor" else 1
         if level:
             a = [_style_view(st, level) for _, st in cells]
             b = [_style_view(st, level) for _, st in want_cells]
             if a != b:
                 i = next(i for i in range(len(a)) if a[i] != b[i])
                 self.bad("export_text-styles/style-differs-from-written",
-                         "char %d %r: export %r, written %r (color_system=%s)"
-                         % (i, cells[i][0], cells[i][1], want_cells[i][1], cs))
-        # the record read through RefStyle (colours exact unless this process renders for a 16-colour file)
-        lvl = 1 if cs == "standard" else 2
+                         "char %d %r: export %r, written %r (color_system=%s, no_color=%s)"
+                         % (i, cells[i][0], cells[i][1], want_cells[i][1], cs, nc))
+        # the record read through RefStyle: the styles as printed, exactly, whatever the console's colour system
+        lvl = 2
         if ref is not None:
             a = [_style_view(st, lvl) for _, st in cells]
             b = [_style_view(st, lvl) for _, st in ref]
@@ -490,7 +526,7 @@ def _signature(run, hist):
     linked = any(st[3] for _, st in cells)
     nl = sum(1 for ch, _ in cells if ch == "\n")
     last = hist[-1][0] if hist else "-"
-    sig = (cfg[0], cfg[1], last, run.is_open(), bool(cells), styled, linked, bool(ctl), min(nl, 3),
+    sig = (cfg[0], cfg[1], bool(cfg[3]), last, run.is_open(), bool(cells), styled, linked, bool(ctl), min(nl, 3),
            bool(run.file_exp), tuple(sorted(run.flags)), any(c in rec for c in "<&>"))
     nontrivial = bool(cells) or bool(ctl) or bool(run.flags)
     return sig, nontrivial
@@ -526,8 +562,8 @@ def _depths(tier):
 
 
 def _core_configs(tier):
-    """quick explores the core stratum on the width-40 configurations only"""
-    return range(6) if tier == "quick" else range(len(CONFIGS))
+    """indices of the configurations of the core stratum"""
+    return [CONFIGS.index(c) for c in (CORE_CONFIGS_QUICK if tier == "quick" else CORE_CONFIGS_THOROUGH)]
 
 
 def plan(tier, seed):
@@ -671,6 +707,8 @@ def describe(tier, seed, res):
 
 def replay(case):
     cfg = tuple(case["config"])
+    if len(cfg) == 3:
+        cfg += (None,)
     hist = [tuple(e) for e in case["history"]]
     _cold_caches()
     run, _ = run_history(cfg, hist)
